@@ -1,8 +1,15 @@
+import random
 from checks import det_check
+import gen_programs as gp
 
 
 def run(rep, ctx):
-    det_check.run(rep, ctx, 'C08')
+    rng = random.Random(ctx.seed * 811 + 8)
+    extra = gp.c08_scenarios(rng, 250 if ctx.tier == 'quick' else 2500)
+    det_check.run(rep, ctx, 'C08', extra_progs=extra,
+                  rule_extra=', write scenarios (state variables of 12 types x constructor assignment x 15 write forms x place of the '
+                             'write: same / derived / other contract, function / constructor / modifier / fallback / library / free function, '
+                             'direct or nested)')
 
 
 def replay(obj):
